@@ -1072,6 +1072,15 @@ func UtxoValidateInsufficientCollateral(
 			totalCollateral.Add(totalCollateral, amount)
 		}
 	}
+	// The collateral balance is what the collateral inputs hold minus what the
+	// collateral return output gives back (Babbage ledger spec, collBalance).
+	// A return larger than the inputs leaves a negative balance, which is
+	// never sufficient.
+	if collReturn := tx.CollateralReturn(); collReturn != nil {
+		if returnAmount := collReturn.Amount(); returnAmount != nil {
+			totalCollateral.Sub(totalCollateral, returnAmount)
+		}
+	}
 	fee := tx.Fee()
 	if fee == nil {
 		fee = new(big.Int)
